@@ -39,14 +39,14 @@ REFINED = [
     "sequence of allocate/into()/ensure_capacity/push*/erase_front/from_buffer/drops, kernels abstracted to one overwrite",
     "capacity policy default_capacity / max_compact_capacity (regenerated from source, Tie A)",
     "memory.rs: try_find_memory_for_slice(165) allocate_slice_initialize(155) and the element writes (86,104,129,135) — "
-    "theorem only, NOT tied by correspondence (crate-private, no hook)"]
+    "tied by correspondence through the memory_split hook (mem.bump: offsets, lengths, out-of-memory point)"]
 FRONTIER = [
     "NOT modelled: len/is_zero/is_one union reads "
     "(87,393,407: no memory access outside the struct), as_full_slice (zeroize feature, repr.rs:253, "
     "buffer.rs:429), unsafe impl Send/Sync (buffer.rs:35,38; repr.rs:62,65), memory.rs MemoryAllocation::new/Drop (38-43,68: "
     "alloc/dealloc of the scratch block) and Memory's Debug offset_from(27)",
     "NOT modelled: arch/*/add.rs intrinsics, fmt/digit_writer.rs (exercised by Miri histories only)",
-    "arithmetic skeletons: div/rem, bit operations, gcd, pow, sqr, mul with min(len) > 24 (scratch block) and IBig sign glue are "
+    "arithmetic skeletons: div/rem, bit operations, gcd, pow, the sqr() method and IBig sign glue are "
     "NOT mirrored op by op; they are covered by the general theorem only through their final Repr::from_buffer / from_dword "
     "(any history of Buffer ops followed by from_buffer is canonical) and by the value-level exploration",
     "Rust-level UB that is not a ledger fact (aliasing/provenance, transmute validity, alignment, reads of uninitialised "
@@ -103,9 +103,9 @@ LEVEL_TEXT = ("Machine-checked Lean 4 theorems over an executable ledger model o
               "explored by value-level histories with invariant checks and by Miri runs of the same histories.")
 LEVEL_NOTE = ("Trusted: Lean kernel; axioms propext/Classical.choice/Quot.sound; vlib/extract.py for the two policy formulas; the "
               "harness incl. its counting allocator, the history generators (sampling) for the tie model<->code; Miri (support "
-              "only). Not modelled: from_static_words, zeroize paths, Send/Sync impls, the scratch block alloc/dealloc of "
-              "memory.rs, allocation failure; the memory.rs bump-splitting theorems are not tied to the code by correspondence "
-              "(no hook). ensure_capacity_exact(c) needs c <= MAX_CAPACITY for the invariant (hypothesis Op.Ok; counterexample "
+              "only). Not modelled: zeroize paths, Send/Sync impls, allocation failure; MemoryAllocation::new/Drop only as the scratch "
+              "alloc/free events of the mul skeleton; the memory.rs bump-splitting theorems are tied through the memory_split hook for "
+              "16-aligned blocks only; sqr::MAX_LEN_SIMPLE = 30 is a literal in the driver (not regenerated). ensure_capacity_exact(c) needs c <= MAX_CAPACITY for the invariant (hypothesis Op.Ok; counterexample "
               "theorem ensure_capacity_exact_breaks_max) — its only caller passes an existing buffer's length.")
 TECHNIQUE = ("Lean 4 program logic (Hoare triples over an event-emitting monad + independent trace checker), induction over "
              "histories; differential correspondence incl. allocator event streams; Miri as support")
@@ -133,7 +133,7 @@ def nontrivial(c):
             any(t.split(":")[0] in ("shl", "ones", "mul", "sqr", "pow", "selfmul") for t in c.args)
     if c.op == "mem.arith":
         return any(len(a) > 32 for a in c.args[2:])
-    return c.op in ("mem.policy", "mem.miri")
+    return c.op in ("mem.policy", "mem.miri", "mem.bump")
 
 
 # ------------------------------------------------------------------ buffer-level histories
@@ -749,11 +749,19 @@ def miri_cases(rng, tier):
         MIRI_NOTE["skipped"] = "cargo +nightly miri not available: %r" % e
         return
     hists = [("buf", h.split(" ")) for h in FIXED_BUF[1:3] + FIXED_BUF[4:9]] + [("val", h.split(" ")) for h in FIXED_VAL[:5]]
+    hists += [("buf", h.split(" ")) for h in FIXED_BUF if h.startswith("static:")]
+    B3 = (1 << 192) - 1
+    hists += [("arith", ["add", "vv", hx(B3), hx(B3)]), ("arith", ["sub", "rv", hx(1 << 200), hx(B3)]),
+              ("arith", ["sub", "rr", hx(B3), hx(1 << 200)]), ("arith", ["mul", "vr", hx(B3), hx((1 << 70) + 1)]),
+              ("arith", ["shl", "v", hx(B3), "d:200"]), ("arith", ["shr", "r", hx(B3 << 70), "d:130"])]
     if tier == "thorough":
         for _ in range(700):
             hists.append(("buf", buf_history(rng, rng.choice([6, 12, 25]))))
         for _ in range(700):
             hists.append(("val", val_history(rng, rng.choice([6, 12, 25]), 4000)))
+        ar = [c for c in arith_cases(rng, "quick") if sum(len(a) for a in c.args) < 400]
+        for c in rng.sample(ar, min(600, len(ar))):
+            hists.append(("arith", list(c.args)))
         hists = [h for h in hists if h[1]]
     tdir = tempfile.mkdtemp(prefix="verif-miri-")
     try:
@@ -836,8 +844,10 @@ def arith_cases(rng, tier):
                     for (x, y) in ((max(a, b), min(a, b)), (a, a), (a, max(a - 1, 0)), (a, max(a - (B - 1), 0)), (min(a, b), max(a, b))):
                         if rng.random() < (0.5 if tier == "quick" else 1.0):
                             yield Case("mem.arith", ["sub", f, hx(x), hx(y)])
-                    if min(la, lb) <= 24 and a != b and la + lb <= 70:
+                    if la + lb <= 70:
                         yield Case("mem.arith", ["mul", f, hx(a), hx(b)])
+                        if rng.random() < 0.15:
+                            yield Case("mem.arith", ["mul", f, hx(a), hx(a)])      # square_large
     # carries that add a word, on every form
     for n in [1, 2, 3, 4, 8, 9, 16, 17]:
         for f in forms:
@@ -849,6 +859,16 @@ def arith_cases(rng, tier):
             yield Case("mem.arith", ["mul", f, hx((1 << (64 * n)) - 1), hx(1 << 70)])
             yield Case("mem.arith", ["mul", f, hx((1 << (64 * n)) - 1), hx(0)])
             yield Case("mem.arith", ["mul", f, hx(1), hx((1 << (64 * n)) - 1)])
+    # scratch block of mul_large / square_large around the simple/Karatsuba/Toom-3 thresholds
+    big = [(24, 24), (24, 25), (25, 25), (25, 40), (30, 30), (31, 31), (30, 100), (100, 100)]
+    if tier == "thorough":
+        big += [(192, 192), (192, 193), (193, 193), (200, 300), (192, 500), (400, 400)]
+    for (la, lb) in big:
+        for f in forms:
+            a, b = operand(la, "random"), operand(lb, "random")
+            yield Case("mem.arith", ["mul", f, hx(a), hx(b)])
+            yield Case("mem.arith", ["mul", f, hx(b), hx(a)])
+            yield Case("mem.arith", ["mul", f, hx(a), hx(a)])
     for la in lens:
         for _ in range(reps):
             a = operand(la, rng.choice(["ones", "random", "one", "pow2", "highbit"]))
@@ -861,8 +881,23 @@ def arith_cases(rng, tier):
                     yield Case("mem.arith", ["shr", f, hx(a), "d:%d" % n])
 
 
+def bump_cases(rng, tier):
+    """memory.rs bump allocator through the memory_split hook: nested allocate_slice_fill of u8..u128 slices from a
+    16-aligned block; offsets/lengths and the out-of-memory point against Model/Mem/Memory.lean"""
+    yield Case("mem.bump", ["d:64", "0:3", "3:2", "1:1", "4:1"])
+    yield Case("mem.bump", ["d:0"])
+    yield Case("mem.bump", ["d:0", "3:0", "0:0"])
+    yield Case("mem.bump", ["d:0", "0:1"])
+    for _ in range(400 if tier == "quick" else 20000):
+        tot = rng.choice([0, 1, 7, 8, 15, 16, 17, 31, 32, 33, 48, 64, 100, 128, 1000, 4096, rng.randrange(0, 300)])
+        reqs = ["%d:%d" % (rng.randrange(5), rng.choice([0, 1, 1, 2, 3, 5, 8, 17, rng.randrange(0, 40)]))
+                for _ in range(rng.randrange(0, 8))]
+        yield Case("mem.bump", ["d:%d" % tot] + reqs)
+
+
 def generate(rng, tier):
     yield from policy_cases(rng, tier)
+    yield from bump_cases(rng, tier)
     yield from arith_cases(rng, tier)
     yield from clone_from_ladder(rng, tier)
     yield from buf_cases(rng, tier)
